@@ -1,6 +1,7 @@
 """C01 — run verdict: no false green, no false red."""
 from __future__ import annotations
-import random, copy
+import random, copy, os, sys
+import common
 import runcluster as rc
 import runprog
 
@@ -175,6 +176,59 @@ def wip_boundary_programs(rnd, n):
     return out
 
 
+# ------------------------------------------------------------------ whole projects on disk, run by `python -m behave`
+PROJECT_ENVS = {
+    "none": None,
+    "plain": "def before_all(context):\n    context.ready = True\n",
+    "re": "from behave import use_step_matcher\nuse_step_matcher('re')\n",
+    "type": "import parse\nfrom behave import register_type\n@parse.with_pattern(r'\\d+')\ndef number(text):\n    return int(text)\nregister_type(Number=number)\n",
+    "raise": "def before_all(context):\n    raise RuntimeError('no database')\n",
+}
+PROJECT_STEPS = {
+    "none": "from behave import given, then\n@given('a counter at {start:d}')\ndef g(context, start):\n    context.n = start\n"
+            "@then('it shows {n:d}')\ndef t(context, n):\n    assert context.n == n\n",
+    "re": "from behave import given, then\n@given(r'a counter at (?P<start>\\d+)')\ndef g(context, start):\n    context.n = int(start)\n"
+          "@then(r'it shows (?P<n>\\d+)')\ndef t(context, n):\n    assert context.n == int(n)\n",
+    "type": "from behave import given, then\n@given('a counter at {start:Number}')\ndef g(context, start):\n    context.n = start\n"
+            "@then('it shows {n:Number}')\ndef t(context, n):\n    assert context.n == n\n",
+}
+PROJECT_STEPS["plain"] = PROJECT_STEPS["raise"] = PROJECT_STEPS["none"]
+
+
+def impl_project(case):
+    import subprocess, tempfile, shutil
+    top = tempfile.mkdtemp(prefix="c01_project_")
+    try:
+        os.makedirs(os.path.join(top, "features", "steps"))
+        shown = 5 if case["outcome"] != "fail" else 6
+        lines = ["Feature: F", "  Scenario: S", "    Given a counter at 5", "    Then it shows %d" % shown]
+        if case["outcome"] == "undefined":
+            lines.append("    Then nobody defined this")
+        with open(os.path.join(top, "features", "f.feature"), "w") as fh:
+            fh.write("\n".join(lines) + "\n")
+        with open(os.path.join(top, "features", "steps", "steps.py"), "w") as fh:
+            fh.write(PROJECT_STEPS[case["env"]])
+        if PROJECT_ENVS[case["env"]] is not None:
+            with open(os.path.join(top, "features", "environment.py"), "w") as fh:
+                fh.write(PROJECT_ENVS[case["env"]])
+        env = dict(os.environ, PYTHONPATH=common.REPO, HOME=top)
+        p = subprocess.run([sys.executable, "-m", "behave", "--no-color", "-f", "plain"] + case.get("args", []), cwd=top, env=env,
+                           capture_output=True, text=True, timeout=120)
+        return {"exit": p.returncode, "tail": (p.stdout + p.stderr)[-600:]}
+    finally:
+        shutil.rmtree(top, ignore_errors=True)
+
+
+def oracle_project(case, obs):
+    want_success = case["outcome"] == "pass" and case["env"] != "raise"
+    if want_success and obs["exit"] != 0:
+        return [("project (environment.py: %s) whose steps all pass and where nothing raises: exit code %d\n%s" % (case["env"], obs["exit"], obs["tail"][-300:]),
+                 "false-red")]
+    if not want_success and obs["exit"] == 0:
+        return [("project (environment.py: %s, outcome %s): exit code 0 although something went wrong" % (case["env"], case["outcome"]), "false-green")]
+    return []
+
+
 def suites(tier, seed):
     rnd = random.Random(seed * 1000003 + 1)
     n = 6000 if tier == "thorough" else 1200
@@ -185,7 +239,13 @@ def suites(tier, seed):
             p = rc.with_random_faults(rnd, p)
         cases.append(p)
     cases += wip_boundary_programs(rnd, 400 if tier == "thorough" else 90)
-    return [{"name": "programs", "cases": cases, "impl": rc.impl_run, "oracle": oracle,
+    projects = [{"env": e, "outcome": o, "args": a} for e in PROJECT_ENVS for o in ("pass", "fail", "undefined")
+                for a in ([], ["--stop"]) if not (a and o == "pass" and e in ("none", "plain"))]
+    proj = {"name": "projects", "cases": projects, "impl": impl_project, "oracle": oracle_project, "exhaustive": True,
+            "nontrivial": lambda c, o: True,
+            "bound": "%d projects on disk (environment.py: none / hooks / step matcher chosen at module level / type registered at "
+                     "module level / raising before_all) x outcome x --stop, run by python -m behave: exit code" % len(projects)}
+    return [proj, {"name": "programs", "cases": cases, "impl": rc.impl_run, "oracle": oracle,
              "nontrivial": nontrivial, "histogram": rc.histogram, "shrink": rc.shrink_program,
              "bound": "%d seeded random programs + %d single-cause programs + @wip-boundary programs (one pending step, the wip tag "
                       "on feature / rule / scenario / outline / one examples block)" % (n, len(single_cause_programs())),
